@@ -22,10 +22,26 @@ theorem setColRows_col_self (j : Nat) : ∀ rows : List (List Rat),
     show r.set j (r.getD j 0) :: setColRows j rs (rs.map (·.getD j 0)) = r :: rs
     rw [row_set_getD_self, ih]
 
-theorem Arr.setCol_col_self (a : Arr) (j : Nat) : a.setCol j (a.col j) = a := by
+/-- the entries of a column of a well-typed array already have the array's dtype -/
+theorem Arr.col_cast_self {a : Arr} (h : a.WF) (j : Nat) : (a.col j).map (castTo a.isInt) = a.col j := by
+  unfold Arr.col
+  rw [List.map_map]
+  apply List.map_congr_left
+  intro r hr
+  simp only [Function.comp]
+  apply castTo_of_isIntQ
+  intro ht
+  rw [List.getD_eq_getElem?_getD]
+  cases hi : r[j]? with
+  | none => simpa using isIntQ_zero
+  | some y => simpa using h.typed ht r hr y (List.mem_of_getElem? hi)
+
+theorem Arr.setCol_col_self {a : Arr} (h : a.WF) (j : Nat) : a.setCol j (a.col j) = a := by
+  unfold Arr.setCol
+  rw [Arr.col_cast_self h]
   cases a with
-  | mk n rows =>
-    show Arr.mk n (setColRows j rows (rows.map (·.getD j 0))) = _
+  | mk n rows t =>
+    show Arr.mk n (setColRows j rows (rows.map (·.getD j 0))) t = _
     rw [setColRows_col_self]
 
 theorem Arr.col_length (a : Arr) (j : Nat) : (a.col j).length = a.nrows := by
@@ -37,23 +53,25 @@ theorem set_self_of_getElem? {α} {l : List α} {r : Nat} {a : α} (h : l[r]? = 
     rw [List.getElem?_eq_getElem hlt] at h; exact Option.some.inj h
   rw [← this]; exact List.set_getElem_self hlt
 
-/-- `fill` with the field's own flattened view changes nothing -/
-theorem fill_flatten_self (j : Nat) : ∀ (cells : List (Option Ref)) (heap : List Arr),
+/-- `fill` with the field's own flattened view changes nothing (on a well-typed heap: an int64
+array holds integers, so the cast of the assignment is the identity) -/
+theorem fill_flatten_self (j : Nat) : ∀ (cells : List (Option Ref)) (heap : List Arr), (∀ a ∈ heap, a.WF) →
     fill j heap cells (flattenField heap cells j) = heap := by
   intro cells
   induction cells with
-  | nil => intro heap; rfl
+  | nil => intro heap _; rfl
   | cons c cs ih =>
-    intro heap
+    intro heap hwf
+    have ih := fun heap => ih heap
     cases c with
-    | none => simpa [fill, flattenField] using ih heap
+    | none => simpa [fill, flattenField] using ih heap hwf
     | some r =>
       cases ha : heap[r]? with
       | none =>
         have : flattenField heap (some r :: cs) j = flattenField heap cs j := by
           simp [flattenField, ha]
         simp only [fill, ha, this]
-        exact ih heap
+        exact ih heap hwf
       | some a =>
         have e : flattenField heap (some r :: cs) j = a.col j ++ flattenField heap cs j := by
           simp [flattenField, ha]
@@ -62,8 +80,8 @@ theorem fill_flatten_self (j : Nat) : ∀ (cells : List (Option Ref)) (heap : Li
           rw [← Arr.col_length a j]; exact List.take_left
         have d : (a.col j ++ flattenField heap cs j).drop a.nrows = flattenField heap cs j := by
           rw [← Arr.col_length a j]; exact List.drop_left
-        rw [t, d, Arr.setCol_col_self, set_self_of_getElem? ha]
-        exact ih heap
+        rw [t, d, Arr.setCol_col_self (hwf a (List.mem_of_getElem? ha)), set_self_of_getElem? ha]
+        exact ih heap hwf
 
 /-! ### frames: `_apply_op` / `fill` only write to arrays that sit in the visited cells -/
 
@@ -158,8 +176,34 @@ theorem col_setColRows (j : Nat) : ∀ (rows : List (List Rat)) (ys : List Rat),
       simp [List.getD_eq_getElem?_getD, hj]
 
 theorem Arr.col_setCol {a : Arr} (hwf : a.WF) {j : Nat} (hj : j < a.ncols) {ys : List Rat} (hy : ys.length = a.nrows) :
-    (a.setCol j ys).col j = ys :=
-  col_setColRows j a.rows ys hy (fun r hr => by rw [hwf r hr]; exact hj)
+    (a.setCol j ys).col j = ys.map (castTo a.isInt) :=
+  col_setColRows j a.rows _ (by simpa [Arr.nrows] using hy) (fun r hr => by rw [hwf.rect r hr]; exact hj)
+
+/-- what `set_flattened xs` stores, read back: each cell's chunk of `xs`, cast to that cell's dtype
+(float → int64 truncates toward zero) -/
+def castFlat (heap : List Arr) : List (Option Ref) → List Rat → List Rat
+  | [], _ => []
+  | none :: cs, xs => castFlat heap cs xs
+  | some r :: cs, xs => match heap[r]? with
+      | some a => (xs.take a.nrows).map (castTo a.isInt) ++ castFlat heap cs (xs.drop a.nrows)
+      | none => castFlat heap cs xs
+
+theorem castFlat_congr {h1 h2 : List Arr} : ∀ (cells : List (Option Ref)) (xs : List Rat),
+    (∀ r, some r ∈ cells → h1[r]? = h2[r]?) → castFlat h1 cells xs = castFlat h2 cells xs := by
+  intro cells
+  induction cells with
+  | nil => intro _ _; rfl
+  | cons c cs ih =>
+    intro xs h
+    have ih' := fun xs => ih xs (fun r hr => h r (List.mem_cons_of_mem _ hr))
+    cases c with
+    | none => simpa [castFlat] using ih' xs
+    | some r =>
+      have := h r List.mem_cons_self
+      simp only [castFlat, this]
+      split
+      · rw [ih']
+      · exact ih' xs
 
 theorem flattenField_congr (j : Nat) {h1 h2 : List Arr} : ∀ (cells : List (Option Ref)),
     (∀ r, some r ∈ cells → h1[r]? = h2[r]?) → flattenField h1 cells j = flattenField h2 cells j := by
@@ -184,13 +228,12 @@ theorem flattenField_cons_some {heap : List Arr} {r : Ref} {a : Arr} (ha : heap[
 theorem flatten_fill (j nf : Nat) (hj : j < nf) : ∀ (cells : List (Option Ref)) (heap : List Arr) (xs : List Rat),
     (∀ a ∈ heap, a.WF) → (∀ c ∈ cells, CellOK heap nf c) → (refsOf cells).Nodup →
     xs.length = (flattenField heap cells j).length →
-    flattenField (fill j heap cells xs) cells j = xs := by
+    flattenField (fill j heap cells xs) cells j = castFlat heap cells xs := by
   intro cells
   induction cells with
   | nil =>
     intro heap xs _ _ _ hl
-    simp [flattenField] at hl
-    simp [flattenField, fill, hl]
+    simp [flattenField, fill, castFlat]
   | cons c cs ih =>
     intro heap xs hwf hc hnd hl
     have hc' : ∀ c ∈ cs, CellOK heap nf c := fun c h => hc c (List.mem_cons_of_mem _ h)
@@ -199,7 +242,7 @@ theorem flatten_fill (j nf : Nat) (hj : j < nf) : ∀ (cells : List (Option Ref)
       have hnd' : (refsOf cs).Nodup := by simpa [refsOf] using hnd
       have hl' : xs.length = (flattenField heap cs j).length := by simpa [flattenField] using hl
       have := ih heap xs hwf hc' hnd' hl'
-      simpa [fill, flattenField] using this
+      simpa [fill, flattenField, castFlat] using this
     | some r =>
       obtain ⟨a, ha, hn⟩ := hc (some r) List.mem_cons_self r rfl
       have hnd2 : r ∉ refsOf cs ∧ (refsOf cs).Nodup := by
@@ -232,7 +275,42 @@ theorem flatten_fill (j nf : Nat) (hj : j < nf) : ∀ (cells : List (Option Ref)
         rw [fill_frame j r cs heap1 _ hnotin]; exact h1r
       rw [flattenField_cons_some hfr, hih]
       rw [Arr.col_setCol hwfa (by rw [hn]; exact hj) (by simp; omega)]
-      exact List.take_append_drop _ _
+      rw [castFlat_congr cs _ hsame]
+      simp only [castFlat, ha]
+
+/-- on float64 cells nothing is cast: what was written is what is read -/
+theorem castFlat_float (j : Nat) : ∀ (cells : List (Option Ref)) (heap : List Arr) (xs : List Rat),
+    (∀ r a, some r ∈ cells → heap[r]? = some a → a.isInt = false) →
+    xs.length = (flattenField heap cells j).length → castFlat heap cells xs = xs := by
+  intro cells
+  induction cells with
+  | nil =>
+    intro heap xs _ hl
+    simp [flattenField] at hl
+    simp [castFlat, hl]
+  | cons c cs ih =>
+    intro heap xs hf hl
+    have hf' : ∀ r a, some r ∈ cs → heap[r]? = some a → a.isInt = false :=
+      fun r a hr => hf r a (List.mem_cons_of_mem _ hr)
+    cases c with
+    | none =>
+      simp only [castFlat]
+      exact ih heap xs hf' (by simpa [flattenField] using hl)
+    | some r =>
+      cases ha : heap[r]? with
+      | none =>
+        simp only [castFlat, ha]
+        exact ih heap xs hf' (by simpa [flattenField, ha] using hl)
+      | some a =>
+        simp only [castFlat, ha]
+        rw [flattenField_cons_some ha] at hl
+        simp only [List.length_append, Arr.col_length] at hl
+        rw [ih heap (xs.drop a.nrows) hf' (by simp; omega)]
+        have : a.isInt = false := hf r a List.mem_cons_self ha
+        have hc : (fun x => castTo false x) = id := by funext x; simp [castTo]
+        simp only [this]
+        show (xs.take a.nrows).map (fun x => castTo false x) ++ xs.drop a.nrows = xs
+        rw [hc, List.map_id, List.take_append_drop]
 
 /-! ### addressed cells: what `positions` (the gather of `__getitem__` / the loops of `get_data`,
 `set_data`, `__setitem__`) computes, coordinate by coordinate, for any number of dimensions -/
@@ -479,15 +557,18 @@ theorem range_map_getD_append (l m : List String) : (List.range l.length).map ((
     have : i < l.length := by simpa using h1
     simp [List.getD_eq_getElem?_getD, List.getElem?_append_left this, List.getElem?_eq_getElem this]
 
+/-- the same array seen as float64 (what `np.hstack` with a float pad makes of an int64 array) -/
+def Arr.asFloat (a : Arr) : Arr := { a with isInt := false }
+
 theorem Arr.keepCols_addCols {a : Arr} (hwf : a.WF) (k : Nat) :
-    (a.addCols k).keepCols (List.range a.ncols) = a := by
+    (a.addCols k).keepCols (List.range a.ncols) = a.asFloat := by
   cases a with
-  | mk n rows =>
-    simp only [Arr.addCols, Arr.keepCols, List.length_range, List.map_map]
+  | mk n rows t =>
+    simp only [Arr.addCols, Arr.keepCols, Arr.asFloat, List.length_range, List.map_map]
     congr 1
     have : ∀ r ∈ rows, ((fun r : List Rat => (List.range n).map (r.getD · 0)) ∘ fun r => r ++ List.replicate k 0) r = r := by
       intro r hr
-      have hl : r.length = n := hwf r hr
+      have hl : r.length = n := hwf.rect r hr
       simp only [Function.comp]
       apply List.ext_getElem
       · simp [hl]
@@ -569,7 +650,7 @@ theorem removeFields_spec {s : State} (hI : Inv s) {vid : Nat} {v : Vec} {names 
 def SameValue (heap heap2 : List Arr) (c c2 : Option Ref) : Prop :=
   match c with
   | none => c2 = none
-  | some r => ∃ (r2 : Nat) (a : Arr), c2 = some r2 ∧ heap[r]? = some a ∧ heap2[r2]? = some a
+  | some r => ∃ (r2 : Nat) (a : Arr), c2 = some r2 ∧ heap[r]? = some a ∧ heap2[r2]? = some a.asFloat
 
 theorem All2.comp_mem {α β γ : Type} {R : α → β → Prop} {S : β → γ → Prop} {T : α → γ → Prop} :
     ∀ {l₁ : List α} {l₂ : List β} {l₃ : List γ}, (∀ a ∈ l₁, ∀ b c, R a b → S b c → T a c) →
@@ -628,7 +709,7 @@ theorem add_remove_spec {s : State} (hI : Inv s) {vid : Nat} {v : Vec} {names : 
       refine ⟨r2, a0, rfl, ha, ?_⟩
       rw [hheap1] at hb2
       rw [hb2, ← hn0]
-      show some ((a0.addCols names.length).keepCols (List.range a0.ncols)) = some a0
+      show some ((a0.addCols names.length).keepCols (List.range a0.ncols)) = some a0.asFloat
       rw [Arr.keepCols_addCols (hI.wf a0 (List.mem_of_getElem? ha))]
 
 end QuantemModel.Vector
